@@ -499,7 +499,7 @@ private:
         return output;
     }
 
-    std::string parse_unicode_escape() {
+    unsigned int parse_hex4() {
         if (pos_ + 4 > input_.size()) {
             throw std::runtime_error("Truncated unicode escape");
         }
@@ -517,6 +517,26 @@ private:
             } else {
                 throw std::runtime_error("Invalid unicode escape");
             }
+        }
+        return codepoint;
+    }
+
+    std::string parse_unicode_escape() {
+        unsigned int codepoint = parse_hex4();
+        if (codepoint >= 0xDC00 && codepoint <= 0xDFFF) {
+            throw std::runtime_error("Unpaired low surrogate in unicode escape");
+        }
+        if (codepoint >= 0xD800 && codepoint <= 0xDBFF) {
+            // RFC 8259 section 7: characters outside the BMP are written as a UTF-16 surrogate pair.
+            if (pos_ + 2 > input_.size() || input_[pos_] != '\\' || input_[pos_ + 1] != 'u') {
+                throw std::runtime_error("Unpaired high surrogate in unicode escape");
+            }
+            pos_ += 2;
+            const unsigned int low = parse_hex4();
+            if (low < 0xDC00 || low > 0xDFFF) {
+                throw std::runtime_error("Invalid low surrogate in unicode escape");
+            }
+            codepoint = 0x10000 + ((codepoint - 0xD800) << 10) + (low - 0xDC00);
         }
         std::string utf8;
         append_utf8(codepoint, utf8);
